@@ -106,7 +106,9 @@ pub fn apply(w: &mut RouterWorld, cfg: &Cfg, a: &Act) {
             let pkid = next_pkid(w, ci);
             let filters = vec![(cfg.filters[*f as usize].clone(), *qos)];
             // C20 variants 1 / 101: MQTT 5 subscribers use a subscription identifier
-            let sub_id = (cfg.prop == "C20" && cfg.variant % 100 == 1 && w.clients[ci].v5).then_some(7);
+            // ... and in C08 (the identifier is part of the session that is resumed)
+            let with_id = (cfg.prop == "C20" && cfg.variant % 100 == 1) || cfg.prop == "C08";
+            let sub_id = (with_id && w.clients[ci].v5).then_some(7 + *f as usize);
             w.send(ci, vec![Tx::Subscribe { pkid, filters, sub_id }]);
         }
         Act::Sub2 { c, f1, f2, qos } => {
